@@ -11,6 +11,12 @@ Sub-checks
              gdist1p / gdist2p = g-forms of the interpolated positions
     xoprob   genotype matrices: interp_genpos / interp_xoprob = map function of consecutive interpolated distances with
              1/2 at chromosome starts; ungrouped matrices are refused
+    history  operation histories on map objects: whole chromosomes / single markers removed (remove, select), genetic
+             positions reassigned through the setter, build_spline() called again, maps derived with interp_gmap / copy /
+             deepcopy / the constructor (handed a copy of another map's spline dictionary) and then edited and rebuilt
+             themselves; after every step every map whose interpolant has been (re)built since its last edit -- the one
+             operated on AND all the others -- is compared with the reference interpolant of its current rows, at the
+             positions of the original map (so a chromosome that has left a map is queried there) and at its own markers
 """
 import math
 from fractions import Fraction
@@ -39,6 +45,10 @@ ASSUMPTIONS = [
     "monotone to the last bit)",
     "F-C11-a signature (input side): interp_gmap is called with a query whose chromosome run structure (names, counts, "
     "sortedness) differs from the source map's",
+    "history: after rows were removed / selected / genetic positions reassigned, and for a map fresh from interp_gmap (which "
+    "carries a copy of its source's interpolant by design), interpolation is examined only once build_spline() has been called "
+    "on that object again -- the library does not rebuild on edits and the property does not say what a stale interpolant "
+    "describes; stored rows are examined always; every edit leaves >= 2 markers on each remaining chromosome and >= 1 chromosome",
 ]
 
 EPS = 2.0 ** -52
@@ -295,6 +305,11 @@ def build_queries(mc, qs):
     model_x = {}
     for (c, x, g) in map_rows(mc):
         model_x.setdefault(c, []).append(x)
+    return build_queries_x(model_x, qs)
+
+
+def build_queries_x(model_x, qs):
+    """queries (chromosome, position, kind) relative to a map given as dict label -> physical positions"""
     labels = sorted(model_x)
     out = []
     for q in qs:
@@ -691,6 +706,203 @@ def check_xoprob(case, ctx):
     ctx.check(nan_equal(g2.vrnt_genpos, gp), "xoprob.interp_genpos_agrees")
 
 
+# ----------------------------------------------------------------------------------------------------------------------
+# sub-check: history (the same laws on map objects that have a past, and on the maps they were derived from)
+# ----------------------------------------------------------------------------------------------------------------------
+OP_NAMES = ["build_spline"] * 4 + ["remove_chr"] * 3 + ["derive"] * 3 + ["remove_row", "copy", "deepcopy", "reconstruct", "set_genpos"]
+
+
+@st.composite
+def history_case(draw):
+    mc = draw(map_strategy())
+    mc["auto_group"] = True
+    ops = []
+    for _ in range(draw(st.integers(1, 8))):
+        name = draw(st.sampled_from(OP_NAMES))
+        op = {"op": name, "slot": draw(st.integers(0, 3)), "c": draw(st.integers(0, 10 ** 6)), "k": draw(st.integers(0, 10 ** 6)),
+              "how": draw(st.integers(0, 2))}
+        if name == "derive":
+            op["qs"] = draw(st.lists(QUERY, min_size=1, max_size=8))
+        ops.append(op)
+    return {"map": mc, "ops": ops, "queries": draw(st.lists(QUERY, min_size=0, max_size=6))}
+
+
+def _model_rows(model):
+    chr_l = [c for c in sorted(model) for _ in model[c][0]]
+    phy_l = [x for c in sorted(model) for x in model[c][0]]
+    gen_l = [y for c in sorted(model) for y in model[c][1]]
+    return chr_l, phy_l, gen_l
+
+
+def _new_map(cls, chr_l, phy_l, gen_l, **kw):
+    vc = numpy.array(chr_l, dtype="int64")
+    vx = numpy.array(phy_l, dtype="int64")
+    vg = numpy.array(gen_l, dtype="float64")
+    if cls == "standard":
+        return StandardGeneticMap(vc, vx, vg, **kw)
+    return ExtendedGeneticMap(vc, vx, vx + 1, vg, **kw)
+
+
+def _verify_slot(ctx, slots, i, fixed_q, prefix, trail):
+    """slot i against the reference model of its CURRENT rows (interpolation only when its interpolant is current)"""
+    slot = slots[i]
+    m, model = slot["m"], slot["model"]
+    chr_l, phy_l, gen_l = _model_rows(model)
+    ctx.check(m.vrnt_chrgrp.tolist() == chr_l and m.vrnt_phypos.tolist() == phy_l and m.vrnt_genpos.tolist() == gen_l,
+              prefix + "stored_rows", lambda: "map #%d after %s: rows %s %s %s expected %s %s %s" % (
+                  i, trail, m.vrnt_chrgrp.tolist(), m.vrnt_phypos.tolist(), m.vrnt_genpos.tolist(), chr_l, phy_l, gen_l))
+    if not slot["fresh"]:
+        return
+    qs = list(fixed_q) + list(zip(chr_l, phy_l))
+    for c in sorted(model):
+        xs = model[c][0]
+        qs.extend((c, (xs[k] + xs[k + 1]) // 2) for k in range(len(xs) - 1))
+    qc = numpy.array([q[0] for q in qs], dtype="int64")
+    qx = numpy.array([q[1] for q in qs], dtype="int64")
+    got = m.interp_genpos(qc, qx).tolist()
+    for (c, x), g in zip(qs, got):
+        where = lambda: "map #%d (%s, chromosomes %s) after %s: chromosome %d position %d -> %r" % (
+            i, slot["origin"], sorted(model), trail, c, x, g)
+        if c not in model:
+            ctx.label("history_query_on_chromosome_that_left_the_map", c in slot["had"])
+            ctx.check(math.isnan(g), prefix + "absent_chromosome_is_missing", where)
+            continue
+        val, tol, between = ref_interp(model, c, x)
+        ctx.check(not math.isnan(g), prefix + "present_chromosome_is_not_missing", where)
+        xs = model[c][0]
+        clause = "own_marker_returns_stored_position" if x in xs else (
+            "linear_between_flanking_markers" if between else "linear_continuation_beyond_ends")
+        ctx.check(abs(g - val) <= tol, prefix + clause, lambda: where() + " expected %r (tol %r); chromosome map %s" % (val, tol, model[c]))
+
+
+def check_history(case, ctx):
+    mc = case["map"]
+    cls = mc["cls"]
+    perm = [int(i) for i in mc["perm"]]
+    model0 = ref_model(mc)
+    ctx.label(cls)
+    m0 = build_map(mc, perm)
+    # fixed query set: every marker position of the ORIGINAL map (so chromosomes that leave a map keep being queried) + drawn ones
+    fixed_q = [(c, x) for c in sorted(model0) for x in model0[c][0]]
+    fixed_q += [(q[0], q[1]) for q in build_queries(mc, case["queries"])]
+    slots = [{"m": m0, "model": {c: (list(xs), list(ys)) for c, (xs, ys) in model0.items()}, "fresh": True,
+              "origin": "constructed", "had": set(model0)}]
+    _verify_slot(ctx, slots, 0, fixed_q, "history.", "construction")
+    trail = []
+    seen = set()
+    for op in case["ops"]:
+        name = op["op"]
+        i = int(op["slot"]) % len(slots)
+        slot = slots[i]
+        m, model = slot["m"], slot["model"]
+        labels = sorted(model)
+        how = int(op["how"]) % 3
+        if name in ("derive", "reconstruct") and (not slot["fresh"] or len(slots) >= 6):
+            name = "build_spline"      # a map is derived from a map whose interpolant is current: rebuild first
+        if name in ("copy", "deepcopy") and len(slots) >= 6:
+            name = "build_spline"
+        if name == "remove_chr" and len(labels) < 2:
+            name = "remove_row"
+        if name == "remove_row" and not any(len(model[c][0]) >= 3 for c in labels):
+            name = "build_spline"
+
+        if name == "build_spline":
+            m.build_spline()
+            slot["fresh"] = True
+            ctx.label("rebuilt_after_chromosome_left", bool(slot["had"] - set(model)))
+        elif name in ("remove_chr", "remove_row"):
+            chr_l, phy_l, gen_l = _model_rows(model)
+            if name == "remove_chr":
+                lab = labels[int(op["c"]) % len(labels)]
+                drop = [j for j in range(len(chr_l)) if chr_l[j] == lab]
+                del model[lab]
+            else:
+                cand = [c for c in labels if len(model[c][0]) >= 3]
+                lab = cand[int(op["c"]) % len(cand)]
+                k = int(op["k"]) % len(model[lab][0])
+                drop = [[j for j in range(len(chr_l)) if chr_l[j] == lab][k]]
+                del model[lab][0][k]
+                del model[lab][1][k]
+            keep = [j for j in range(len(chr_l)) if j not in drop]
+            if how == 0:
+                m.remove(numpy.array(drop, dtype="int64"))
+            elif how == 1:
+                mask = numpy.ones(len(chr_l), dtype=bool)
+                mask[drop] = False
+                m.select(mask)
+            else:
+                m.select(numpy.array(keep, dtype="int64"))
+            name = "%s(%d)via_%s" % (name, lab, ("remove", "select_mask", "select_indices")[how])
+            slot["fresh"] = False
+        elif name == "set_genpos":
+            a, b = ((2.0, 0.25), (0.5, 0.0), (1.0, 1.0))[how]
+            for c in labels:
+                model[c] = (model[c][0], [a * y + b for y in model[c][1]])
+            m.vrnt_genpos = numpy.array(_model_rows(model)[2], dtype="float64")
+            slot["fresh"] = False
+        elif name in ("copy", "deepcopy"):
+            new = (m.copy() if how else __import__("copy").copy(m)) if name == "copy" else (m.deepcopy() if how else __import__("copy").deepcopy(m))
+            ctx.check(type(new) is type(m) and new is not m, "history.copy_class")
+            slots.append({"m": new, "model": {c: (list(xs), list(ys)) for c, (xs, ys) in model.items()}, "fresh": slot["fresh"],
+                          "origin": "%s of #%d" % (name, i), "had": set(slot["had"])})
+        elif name == "derive":
+            # a marker panel on a subset of the source's chromosomes, >= 2 distinct positions on each, rows in drawn order
+            dq = [q for q in build_queries_x({c: model[c][0] for c in labels}, op["qs"]) if q[2] != "absent"]
+            if not dq:
+                dq = [(labels[0], model[labels[0]][0][0], "own")]
+            panel = []
+            for q in dq:
+                if (q[0], q[1]) not in panel:
+                    panel.append((q[0], q[1]))
+            for c in sorted(set(q[0] for q in panel)):
+                if sum(1 for q in panel if q[0] == c) < 2:
+                    x = [q[1] for q in panel if q[0] == c][0]
+                    panel.append((c, x + 1 + int(op["k"]) % 50))
+            pc = numpy.array([q[0] for q in panel], dtype="int64")
+            px = numpy.array([q[1] for q in panel], dtype="int64")
+            new = m.interp_gmap(pc, px) if cls == "standard" else m.interp_gmap(pc, px, px + 1)
+            ctx.check(type(new) is type(m), "history.derived_map_class")
+            order = sorted(range(len(panel)), key=lambda j: panel[j])
+            stored = new.vrnt_genpos.tolist()
+            ok = new.vrnt_chrgrp.tolist() == [panel[j][0] for j in order] and new.vrnt_phypos.tolist() == [panel[j][1] for j in order]
+            ctx.check(ok and len(stored) == len(panel), "history.derived_map_rows_are_the_panel_sorted",
+                      lambda: "%s %s for panel %s" % (new.vrnt_chrgrp.tolist(), new.vrnt_phypos.tolist(), panel))
+            nmodel = {}
+            for j, y in zip(order, stored):
+                c, x = panel[j]
+                val, tol, _ = ref_interp(model, c, x)
+                ctx.check(abs(y - val) <= tol, "history.derived_map_positions_are_interpolated",
+                          lambda: "panel marker %s of map derived from #%d after %s: %r expected %r" % ((c, x), i, trail, y, val))
+                nmodel.setdefault(c, ([], []))
+                nmodel[c][0].append(x)
+                nmodel[c][1].append(y)
+            # the derived map carries (a copy of) the source's interpolant until build_spline() is called on it
+            slots.append({"m": new, "model": nmodel, "fresh": False, "origin": "interp_gmap of #%d" % i, "had": set(model)})
+            ctx.label("derived_map_lacks_a_source_chromosome", len(nmodel) < len(model))
+        elif name == "reconstruct":
+            # the constructor is handed (a copy of) another map's spline dictionary and builds its own ("overwritten")
+            sub = [c for n_, c in enumerate(labels) if (int(op["c"]) >> n_) & 1] or labels
+            nmodel = {c: (list(model[c][0]), list(model[c][1])) for c in sub}
+            chr_l, phy_l, gen_l = _model_rows(nmodel)
+            new = _new_map(cls, chr_l[::-1], phy_l[::-1], gen_l[::-1], spline=dict(m.spline))
+            slots.append({"m": new, "model": nmodel, "fresh": True, "origin": "constructed with the spline dictionary of #%d" % i,
+                          "had": set(model)})
+        trail.append("%s#%d" % (name, i))
+        base = name.split("(")[0]
+        if base not in seen:
+            seen.add(base)
+            ctx.label("op_" + base)
+        # every map is re-examined: the one just operated on (or created) and all the others
+        target = len(slots) - 1 if name in ("copy", "deepcopy", "derive", "reconstruct") else i
+        tr = " -> ".join(trail)
+        for j in range(len(slots)):
+            _verify_slot(ctx, slots, j, fixed_q, "history." if j == target else "history.other_map.", tr)
+    nfresh = sum(1 for s_ in slots if s_["fresh"])
+    ctx.label("maps>=2", len(slots) >= 2)
+    ctx.label("other_map_rebuilt_while_source_alive", len(slots) >= 2 and any(t.startswith("build_spline#") and not t.endswith("#0") for t in trail))
+    ctx.nontrivial(len(trail) >= 3 and nfresh >= 1 and (len(slots) >= 2 or any(s_["had"] - set(s_["model"]) for s_ in slots)))
+
+
 SUBCHECKS = [
     SubCheck("mapfn", check_mapfn, mapfn_case(), quick=600, thorough=5000, shards_quick=2,
              rule="both map functions x up to 12 distances (pool incl. 0, subnormal, 1e-8, 0.5, 5, 20, 1e3, inf + floats) x up to 12 "
@@ -710,4 +922,13 @@ SUBCHECKS = [
              rule="map as in interp x genotype matrix (phased/unphased) whose variants are queries in drawn order x map function; "
                   "non-trivial = variants on >=2 chromosomes and >=1 strictly between map markers",
              required_labels=("haldane", "kosambi", "phased", "unphased", "has_absent_chromosome", "variants_on>=2_chromosomes")),
+    SubCheck("history", check_history, history_case(), quick=300, thorough=4000, shards_quick=4,
+             rule="map as in interp x 1-8 operations on up to 6 live map objects (build_spline again, remove/select a whole "
+                  "chromosome or one marker, reassign genetic positions, interp_gmap on a sub-panel, copy/deepcopy, constructor "
+                  "given another map's spline dictionary); after every operation every map with a current interpolant is compared "
+                  "with the reference of its current rows at the original map's positions and its own markers; non-trivial = "
+                  ">=3 operations and (>=2 maps or a map that lost a chromosome)",
+             required_labels=("standard", "extended", "op_build_spline", "op_remove_chr", "op_derive", "maps>=2",
+                              "rebuilt_after_chromosome_left", "history_query_on_chromosome_that_left_the_map",
+                              "other_map_rebuilt_while_source_alive")),
 ]
